@@ -423,6 +423,8 @@ func coalescingScenarios(prop string, clients int) []psched {
 		ps = append(ps, psched{Name: n("cold-client1-disconnects"), Backend: be, Clients: clients, Start: "cold", Outcome: "cacheable", Cancel: 1, Prop: prop})
 		ps = append(ps, psched{Name: n("cold-client2-disconnects"), Backend: be, Clients: clients, Start: "cold", Outcome: "cacheable", Cancel: 2, Prop: prop})
 		ps = append(ps, psched{Name: n("stale-client1-disconnects"), Backend: be, Clients: clients, Start: "stale-304", Outcome: "cacheable", Cancel: 1, Prop: prop})
+		// the stale entry is removed while it is being revalidated
+		ps = append(ps, psched{Name: n("stale-304-entry-removed-meanwhile"), Backend: be, Clients: clients, Start: "stale-304", Outcome: "cacheable", Evictor: "delete", Prop: prop})
 	}
 	return ps
 }
